@@ -7,7 +7,7 @@ ASSUME = [
     "diagnostic positions are extracted from the error text with the pattern <file>:<line>:<col>",
     "the offending token of a missing type is the end of the line (the implicit ';')",
 ]
-FAULTS = ["badname", "nothdr", "unktype", "dupname", "notype", "twodecl", "novar"]
+FAULTS = ["badname", "badname8", "nothdr", "unktype", "dupname", "notype", "twodecl", "novar"]
 CFG = """SPECIFICATION Spec
 CONSTANTS
   MaxChanges = %d
@@ -45,7 +45,7 @@ RNG = [None]
 def line_text(toks):
     """token text preceded by its blanks; a blank is a space or (seeded) a tab - one byte, one column either way"""
     rng = RNG[0]
-    return "".join("".join(("\t" if (rng is not None and rng.random() < 0.25) else " ") for _ in range(t["g"])) + t["t"] for t in toks)
+    return "".join("".join(("\t" if (rng is not None and rng.random() < 0.25) else " ") for _ in range(t["g"])) + t["t"].replace("AE", "\u00e4") for t in toks)
 
 
 def trail():
